@@ -22,11 +22,11 @@ EXPLANATION = (
 )
 RULE_TEXT = (
     "C12.a=C02.c; C12.b per clause index: kind(candidates)==kind(mutations)==kind(counts)==clause kind; C12.c DML target "
-    "== MERGE target; C12.d helper TEMPORARY and dropped before execute returns; C12.e BEGIN..COMMIT/ROLLBACK bracket."
+    "== MERGE target; C12.f each generated statement names exactly its own clause's columns/values; C12.d helper TEMPORARY and dropped before execute returns; C12.e BEGIN..COMMIT/ROLLBACK bracket."
 )
 TRUSTED = ["CPython ast", "DuckDB temp tables are per connection", "statement descriptors mirror the pinned parser"]
 
-CLAUSES = ["update", "delete", "insert", "update+cond", "delete(lower)"]
+CLAUSES = ["update", "delete", "insert", "update+cond", "delete(lower)", "insert(no column list)"]
 
 
 def merge_descriptor():
@@ -36,21 +36,26 @@ def merge_descriptor():
     def col(t, c):
         return node("Column", f"{t}.{c}", this=ident(c), table=ident(t))
     on = node("EQ", "on", this=col("TGT", "ID"), expression=col("SRC", "ID"))
-    upd = lambda: node("Update", expressions=Lst([node("EQ", this=col("TGT", "V"), expression=col("SRC", "V"))]))  # noqa: E731
-    ins = node("Insert", this=node("Tuple", expressions=Lst([col("TGT", "ID")])), expression=node("Tuple", expressions=Lst([col("SRC", "ID")])))
+    upd = lambda c: node("Update", expressions=Lst([node("EQ", this=col("TGT", c), expression=col("SRC", c))]))  # noqa: E731
+    ins = node("Insert", this=node("Tuple", expressions=Lst([col("TGT", "C2")])), expression=node("Tuple", expressions=Lst([col("SRC", "X2")])))
     whens = Lst([
-        node("When", "w0", matched=Const(True), then=upd()),
+        node("When", "w0", matched=Const(True), then=upd("V0")),
         node("When", "w1", matched=Const(True), then=node("Var", this=Const("DELETE"))),
         node("When", "w2", matched=Const(False), then=ins),
-        node("When", "w3", matched=Const(True), then=upd(), condition=node("EQ", this=col("SRC", "FLAG"), expression=lit("1", False))),
+        node("When", "w3", matched=Const(True), then=upd("V3"), condition=node("EQ", this=col("SRC", "FLAG"), expression=lit("1", False))),
         node("When", "w4", matched=Const(True), then=node("Var", this=Const("delete"))),
+        node("When", "w5", matched=Const(False), then=node("Insert", expression=node("Tuple", expressions=Lst([col("SRC", "X5"), col("SRC", "Y5")])))),
     ])
     t = node("Table", "TGT", this=ident("TGT"))
     s = node("Table", "SRC", this=ident("SRC"))
     return node("Merge", "merge", this=t, using=s, on=on, expressions=whens)
 
 
-KIND = {"update": "updated", "delete": "deleted", "insert": "inserted", "update+cond": "updated", "delete(lower)": "deleted"}
+# the column / value names each clause's own payload consists of (every name belongs to exactly one clause)
+PAYLOAD = [{"V0"}, set(), {"C2", "X2"}, {"V3"}, set(), {"X5", "Y5"}]
+
+KIND = {"update": "updated", "delete": "deleted", "insert": "inserted", "update+cond": "updated", "delete(lower)": "deleted",
+        "insert(no column list)": "inserted"}
 
 
 def _run(prog, fname):
@@ -101,6 +106,18 @@ def rule_ladders(ctx):
             im = re.search(r"merge_op\s*=\s*(\d+)", txt)
             idx = int(im.group(1)) if im else None
             mut.setdefault(idx, []).append({"DELETE": "deleted", "UPDATE": "updated", "INSERT": "inserted"}.get(kind, kind))
+            # C12.f each statement carries its own clause's payload (SET list, column list, values) and nobody else's
+            if idx is not None and idx < len(PAYLOAD):
+                every = set().union(*PAYLOAD)
+                got_p = {w for w in re.findall(r"[A-Za-z_][A-Za-z_0-9]*", txt) if w in every}
+                ok_p = got_p == PAYLOAD[idx]
+                ctx.ob("C12.f", f"{kind} statement of clause {idx} carries exactly that clause's columns and values {sorted(PAYLOAD[idx])}", ok_p,
+                       m.loc(e[4]) if e[4] is not None else m.path, str(sorted(got_p)))
+                if not ok_p:
+                    ctx.violation("C12.f", "transforms_merge", "_mutations", f"clause {idx} ({CLAUSES[idx]}): payload {sorted(got_p)}", m.path,
+                                  f"the {kind} generated for WHEN clause #{idx} ({CLAUSES[idx]}) names {sorted(got_p)} but the clause itself gives "
+                                  f"{sorted(PAYLOAD[idx])}: columns/values of another clause leak into it (or its own are lost), so rows get "
+                                  f"values in the wrong columns")
             # C12.c targets
             tabs = sqlt.from_tables(toks)
             first = ".".join(t.text for t in tabs[0]) if tabs else ""
